@@ -51,6 +51,12 @@ Theorem C15_empty : b58enc [] = [] /\ b58dec [] = Err "ErrInvalidString".
 Proof. split; reflexivity. Qed.
 Print Assumptions C15_empty.
 
+(* the encoder's buffer estimate n*138/100+1 digits holds every n-byte value
+   (an under-estimate would index out of range: mutant 136/100 panics) *)
+Theorem C15_buffer_enough : forall n, 0 <= n -> 256 ^ n < 58 ^ (n * 138 / 100 + 1).
+Proof. exact buffer_enough. Qed.
+Print Assumptions C15_buffer_enough.
+
 (* addresses; sha256 is any function giving at least 4 bytes (premises) *)
 Theorem C15_addr_iff : forall sha : list Z -> list Z,
   (forall m, (4 <= List.length (sha m))%nat) -> (forall m, Forall is_byte (sha m)) ->
